@@ -8,9 +8,36 @@ import "time"
 // through *.npatch seams that replace time.Now()/time.Sleep in the daemon files for the replay build.
 var clockLast time.Time
 
-func AllowClock() {}
+// step clock state (ClockSteps)
+var (
+	clockSteps          bool
+	clockStall          int64
+	clockBase, clockOff int64
+	clockLB             int64
+	clockStarted        bool
+)
+
+func AllowClock() { clockSteps, clockStarted = false, false }
+
+func ClockSteps(stallSeconds int) {
+	clockSteps, clockStall, clockStarted, clockOff, clockLB = true, int64(stallSeconds), false, 0, 0
+}
 
 func Now() time.Time {
+	if clockSteps {
+		if !clockStarted {
+			clockBase, clockStarted = I64("clock_sec"), true
+		} else {
+			if clockLB > clockOff {
+				clockOff = clockLB
+			}
+			if clockStall > 0 && Bool("clock_stall") {
+				clockOff += clockStall
+			}
+		}
+		clockLast = time.Unix(clockBase+clockOff, 0)
+		return clockLast
+	}
 	sec := I64("clock_sec")
 	nsec := I64("clock_nsec")
 	clockLast = time.Unix(sec, nsec)
@@ -19,7 +46,11 @@ func Now() time.Time {
 
 func LastNow() time.Time { return clockLast }
 
-func Sleep(d time.Duration) {}
+func Sleep(d time.Duration) {
+	if clockSteps && d > 0 {
+		clockLB = clockOff + (int64(d)+999999999)/1000000000
+	}
+}
 
 func HashBitVectors() {}
 
